@@ -369,7 +369,10 @@ func TestC12(t *testing.T) {
 			}
 		}
 	}
-	reps := run.Pick(4, 60)
+	reps := 4
+	if !run.Quick() {
+		reps = 60 * rt.ScaleEnv()
+	}
 	k := 0
 	for rep := 0; rep < reps; rep++ {
 		for _, sc := range scs {
